@@ -339,10 +339,28 @@ def unstructured_big(ctx, rng, fails, full):
                     return
 
 
+def sparse_bound(ctx, rng, fails):
+    """streams beyond 4 GiB (sparse): the bound after every chunk"""
+    for sp in G.far_images(rng, True) + G.sparse_generic(rng):
+        lim = G.bound(sp.fmt)
+        for tag in ('extents', 'extents%d' % (1 << 20)):
+            cuts = sp.plan(tag)
+            ctx.evaluations += 1
+            ctx.count('search/sparse/' + tag)
+            peak = [0]
+            v, i = G.sparse_run(sp, cuts, lambda insp: peak.__setitem__(0, max(peak[0], sum(insp.context_info.values()))))
+            peak[0] = max(peak[0], sum(i.context_info.values()))
+            if peak[0] > lim:
+                fails.append(Failure(sp.case(tag), {'kind': 'retained-bytes-exceed-the-bound',
+                                                    'what': '%s inspector holds %d bytes on a sparse stream of %d bytes (plan "%s"); the bound is %d'
+                                                            % (sp.fmt, peak[0], sp.total, tag, lim)}))
+                return
+
+
 def search(ctx, seeds, full=False):
     rng = ctx.rng
     fails = []
-    for s in [s for s in seeds if s.get('kind') == 'insp'][:40]:
+    for s in [s for s in seeds if s.get('kind') == 'insp' and 'content' in s][:40]:
         data = G.decode_content(s['content'])
         img = G.Img(s['fmt'], data, [64, 512, G.H, 256 * G.K], 'seed: ' + s.get('tag', ''))
         # the disagreeing stream, and the same header followed by enough data to fill whatever it announces
@@ -352,6 +370,7 @@ def search(ctx, seeds, full=False):
         if len(fails) >= 5:
             return fails
     unstructured_big(ctx, rng, fails, full)
+    sparse_bound(ctx, rng, fails)
     if len(fails) >= 5:
         return fails
     field_sweep(ctx, rng, fails, full)
@@ -379,6 +398,16 @@ def replay(ctx, payload):
         print('nothing to replay: this file names the obligation that no longer checks:')
         print(json.dumps(payload.get('no_longer_checks'), indent=1)[:3000])
         return 0
+    if case.get('kind') == 'sparse':
+        sp, cuts = G.sparse_of_case(case)
+        peak = [0]
+        v, i = G.sparse_run(sp, cuts, lambda insp: peak.__setitem__(0, max(peak[0], sum(insp.context_info.values()))))
+        peak[0] = max(peak[0], sum(i.context_info.values()))
+        print('%s, sparse stream of %d bytes, plan "%s"' % (sp.fmt, sp.total, case['plan']))
+        print('implementation:', v)
+        print('model         :', ctx.driver.ask(G.inspx_line(sp, cuts, False)).split('\t')[-1])
+        print('property oracle on the implementation: largest sum(context_info.values()) = %d; bound %d' % (peak[0], G.bound(sp.fmt)))
+        return 1 if peak[0] > G.bound(sp.fmt) else 0
     data = G.decode_content(case['content'])
     sizes = G.unpack_sizes(case['sizes'])
     fmt = case['fmt']
